@@ -11,6 +11,7 @@ correspond:  the same streams (plus one-character mutations) through the Lean mo
              right-hand side of theorem subst_render_eval) against this file's render/spec_eval.
 """
 import random
+import re
 
 DRIVER = "drv_c17"
 RULE = ("streams: (a) fragment trees from the documented substitution grammar (depth<=5, all forms, names over "
@@ -442,6 +443,122 @@ def impl_evalstr(text, env, sandbox, tools):
         return ("internal", "%s: %s" % (type(x).__name__, x))
 
 
+# ------------------------------------------------------------------ regex string functions (match, resubst)
+# Documented (doc/manual/configuration.rst): $(match,string,pattern[,i]) -> "true"/"false" (re.search), 
+# $(resubst,pattern,replacement,string[,i]) -> re.sub; the optional flag "i" ignores case. The value depends on the
+# arguments only -- never on what was evaluated earlier in the same process.
+
+RX_PATTERNS = ["^arm", "a+", "[a-c]x", "foo|bar", "(?i)q", "\\.c$", "x$", "^[A-Z]", "b", "arm", "o{2}", "[A-Z]+$",
+               "^(foo|ARM)", "\\d+", "c"]
+RX_SUBJECTS = ["ARM64", "armv7", "Foo.C", "main.c", "aAax", "BX cx", "Quux", "fooBAR", "FOO bar", "x86_64",
+               "Readme.TXT", "abcABC", "aarch64-ARM", "qQ", "Cx.c"]
+RX_REPLS = ["-", "Z", "_x_", "[\\g<0>]", "<>", "0"]
+RX_BARE_OK = set(NAME_CHARS)
+
+
+def rx_expected(call):
+    """independent evaluator: Python's re with IGNORECASE iff the documented flag is given"""
+    flags = re.IGNORECASE if call["i"] else 0
+    if call["fn"] == "match":
+        found = re.search(call["pat"], call["s"], flags) is not None
+        return found if call["form"] == "cond" else ("true" if found else "false")
+    return re.sub(call["pat"], call["repl"], call["s"], flags=flags)
+
+
+def rx_quote(arg, form):
+    if form == "bare" and arg and all(ch in RX_BARE_OK for ch in arg):
+        return arg
+    if form == "dq":
+        return '"' + esc_meta(arg) + '"'
+    return "'" + arg + "'"
+
+
+def rx_text(call):
+    form = call["form"]
+    if call["fn"] == "match":
+        args = [call["s"], call["pat"]]
+    else:
+        args = [call["pat"], call["repl"], call["s"]]
+    if form == "cond":
+        qa = ["'" + a + "'" for a in args] + (["'i'"] if call["i"] else [])
+        return "%s(%s)" % (call["fn"], ", ".join(qa))
+    qa = [rx_quote(a, form) for a in args] + (["i"] if call["i"] else [])
+    return "$(%s,%s)" % (call["fn"], ",".join(qa))
+
+
+def rx_impl(env, call):
+    from bob.errors import ParseError
+    from bob.stringparser import IfExpression
+    text = rx_text(call)
+    try:
+        if call["form"] == "cond":
+            return ("ok", bool(env.evaluate(IfExpression(text), "p")))
+        return ("ok", env.substitute(text, "p"))
+    except ParseError as x:
+        return ("err", str(x.slogan)[:80])
+    except Exception as x:  # noqa
+        return ("internal", "%s: %s" % (type(x).__name__, x))
+
+
+def gen_rx_sequence(r, n):
+    """n calls over a small set of patterns, so that the same pattern string recurs with and without the flag and
+    in both functions"""
+    pats = r.sample(RX_PATTERNS, r.choice([1, 1, 2, 2, 3]))
+    calls = []
+    for _ in range(n):
+        fn = r.choice(["match", "match", "resubst"])
+        call = {"fn": fn, "pat": r.choice(pats), "s": r.choice(RX_SUBJECTS), "i": r.random() < 0.5,
+                "form": r.choice(["sq", "dq", "bare", "cond"] if fn == "match" else ["sq", "dq", "bare"])}
+        if fn == "resubst":
+            call["repl"] = r.choice(RX_REPLS)
+        calls.append(call)
+    return calls
+
+
+_RX_HISTORY = {}        # pattern string -> distinct calls already evaluated in this process (in order)
+
+
+def rx_run_sequence(ctx, calls, record_history=True):
+    """evaluate the calls in order in this process; a wrong value is reported together with every earlier call of this
+    process that used the same pattern string (the only state the calls could share)"""
+    env = make_env({}, False, {})
+    for call in calls:
+        got = rx_impl(env, call)
+        want = ("ok", rx_expected(call))
+        prior = list(_RX_HISTORY.get(call["pat"], []))
+        if record_history and call not in prior:
+            _RX_HISTORY.setdefault(call["pat"], []).append(dict(call))
+        if got != want:
+            case = {"kind": "regex-seq", "calls": prior + [dict(call)]}
+            if got[0] == "internal":
+                ctx.violation("internal exception from %r: %s" % (rx_text(call), got[1]), case,
+                              "regex-function-internal-exception")
+            else:
+                ctx.violation("regex function value differs from documented semantics: %r = %r, documented value %r "
+                              "(after %d earlier evaluation(s) with the same pattern in this process: %s)"
+                              % (rx_text(call), got[1], want[1], len(prior),
+                                 "; ".join(rx_text(c) for c in prior[:4])), case, "regex-function-value")
+            return False
+    return True
+
+
+def regex_stream(ctx, tag, n_seq, n_calls, min_seq, frac):
+    r = ctx.subrng("regex-seq", tag)
+    for i in range(n_seq):
+        if i >= min_seq and ctx.time_left() < frac * ctx.budget:
+            ctx.skip("regex function stream (%s) cut by the time budget" % tag)
+            break
+        calls = gen_rx_sequence(r, n_calls)
+        rx_run_sequence(ctx, calls)
+        flags_by_pat = {}
+        for c in calls:
+            flags_by_pat.setdefault(c["pat"], set()).add(c["i"])
+        mixed = any(len(v) == 2 for v in flags_by_pat.values())
+        ctx.case(("regex-seq", tuple(rx_text(c) for c in calls)), nontrivial=mixed,
+                 sample={"calls": [rx_text(c) for c in calls]})
+        ctx.count("regex_seq", "same pattern with and without i" if mixed else "single flag setting")
+
+
 # ------------------------------------------------------------------ case streams
 
 def tree_cases(ctx, n, tag):
@@ -478,6 +595,8 @@ def _rec(c):
 
 
 def oracle(ctx):
+    # (0) regex string functions, documented semantics, history independent: mandatory first batch
+    regex_stream(ctx, "first", 300, 6, 300, 0.0)
     n_tree = ctx.scale(12000, 300000)
     for n_done, c in enumerate(tree_cases(ctx, n_tree, "tree")):
         if n_done > 1500 and ctx.time_left() < 0.75 * ctx.budget:
@@ -560,6 +679,8 @@ def oracle(ctx):
         if a[0] == "internal":
             ctx.violation("internal exception from IfExpression(%r): %s" % (text, a[1]),
                           {"kind": "infix-text", "text": text, "env": ENVS[0]}, "ifexpr-operator-as-string-operand")
+    # (f) regex string functions: larger time-gated stream (longer sequences)
+    regex_stream(ctx, "stream", ctx.scale(3000, 60000), 10, 0, 0.3)
 
 
 def correspond(ctx):
@@ -667,6 +788,9 @@ def correspond_spec(ctx):
 
 def replay(ctx, case):
     k = case.get("kind")
+    if k == "regex-seq":
+        rx_run_sequence(ctx, case["calls"], record_history=False)
+        return
     if k == "tree":
         frags = _tuplify(case["frags"])
         c = dict(case, frags=frags)
